@@ -1124,6 +1124,30 @@ func runL2(args []string) {
 					Holds: map[string]bool{"C01": false}})
 			}
 		}
+		// and with nothing in between: the long statement is only bound (its Query built), the
+		// short ones are built and run at once, several times over
+		func() {
+			defer func() { recover() }()
+			env := newL2Env()
+			defer env.db.PlainDB().Close()
+			big, err1 := sqlair.Prepare(c.Q, c.Samples...)
+			plain, err2 := sqlair.Prepare("SELECT name FROM t -- plain\n")
+			if err1 != nil || err2 != nil {
+				return
+			}
+			for k := 0; k < 5; k++ {
+				_ = env.db.Query(context.Background(), big, c.Args...)
+				_ = env.db.Query(context.Background(), plain).Run()
+			}
+			for _, e := range env.state.Events() {
+				if e.Kind == "prepare" && e.SQL != "SELECT name FROM t -- plain\n" {
+					rep.addHolds("C01", Finding{Case: map[string]any{"q": hx("SELECT name FROM t -- plain\n"), "text": "SELECT name FROM t -- plain", "after": fmt.Sprintf("binding a statement with %d slice elements", n)}, Kind: "holds",
+						Detail: fmt.Sprintf("right after a very long statement was bound, a statement without expressions was not sent as written: the driver received %d bytes beginning %q", len(e.SQL), firstN(e.SQL, 60)),
+						Holds: map[string]bool{"C01": false}})
+					break
+				}
+			}
+		}()
 		hyp["big-sql-statements"]++
 		want := "DELETE FROM t WHERE a IN (@sqlair_0"
 		if res.panic != "" || !res.bindOk || !strings.HasPrefix(res.sql, want) || strings.Count(res.sql, "@sqlair_") != n || len(res.params) != n ||
